@@ -1111,6 +1111,8 @@ Notes:
             if msg:
                 self._stepmon.info('STOP("%s")' % msg)
                 self.__save_state(force=True)
+        else: # already terminated, then cleanup/finalize
+            self.Finalize()
         return msg
 
     def _Solve(self, cost, ExtraArgs, **settings):
